@@ -52,16 +52,80 @@ def _init_worker(modname, tier, seed, path):
     mod.prepare(tier, seed)
 
 
+def _job_result(mod, job, name):
+    try:
+        return mod.run_job(job)
+    except BaseException as ex:  # noqa: B902  (path-steering exceptions are BaseException)
+        r = new_result(name)
+        r['error'] = f'{type(ex).__name__}: {ex}\n' + traceback.format_exc()[-1500:]
+        return r
+
+
+def _run_forked(mod, job, name, seconds):
+    """Runs the job in a forked child that is killed after `seconds`; returns its result, or None when it did not finish.
+    (z3 occasionally ignores its own time limits on a query that normally takes milliseconds; a fresh attempt then succeeds.)"""
+    import pickle
+    import select
+    import signal
+    rd, wr = os.pipe()
+    pid = os.fork()
+    if pid == 0:
+        try:
+            os.close(rd)
+            try:
+                import ctypes
+                ctypes.CDLL('libc.so.6').prctl(1, 9)
+            except Exception:
+                pass
+            blob = pickle.dumps(_job_result(mod, job, name))
+            with os.fdopen(wr, 'wb') as f:
+                f.write(blob)
+        finally:
+            os._exit(0)
+    os.close(wr)
+    buf, deadline = b'', time.time() + seconds
+    try:
+        while True:
+            left = deadline - time.time()
+            if left <= 0:
+                return None
+            ready, _, _ = select.select([rd], [], [], min(left, 5.0))
+            if ready:
+                chunk = os.read(rd, 1 << 20)
+                if not chunk:
+                    break
+                buf += chunk
+    finally:
+        os.close(rd)
+        try:
+            os.kill(pid, signal.SIGKILL)
+        except ProcessLookupError:
+            pass
+        try:
+            os.waitpid(pid, 0)
+        except ChildProcessError:
+            pass
+    try:
+        return pickle.loads(buf)
+    except Exception:
+        return None
+
+
 def _run_one(args):
     modname, job = args
     t0 = time.time()
     mod = importlib.import_module(modname)
     name = job.get('name', str(job)) if isinstance(job, dict) else str(job)
-    try:
-        r = mod.run_job(job)
-    except BaseException as ex:  # noqa: B902  (path-steering exceptions are BaseException)
+    soft = float(os.environ.get('VERIF_JOB_SOFT_TIMEOUT', 0) or (420 if os.environ.get('VERIF_TIER_RUNNING', 'quick') == 'quick' else 3600))
+    r, attempts = None, 0
+    while r is None and attempts < 2:
+        attempts += 1
+        r = _run_forked(mod, job, name, soft)
+    if r is None:
         r = new_result(name)
-        r['error'] = f'{type(ex).__name__}: {ex}\n' + traceback.format_exc()[-1500:]
+        r['error'] = f'job did not finish within {soft:.0f}s in two attempts'
+    elif attempts > 1:
+        r['notes'].append(f'first attempt exceeded {soft:.0f}s and was abandoned; this is the result of the second attempt')
     r['wall_s'] = round(time.time() - t0, 3)
     return r
 
@@ -126,6 +190,7 @@ def main(argv):
     only = os.environ.get('VERIF_ONLY')
     mod.prepare(tier, seed)
     jobs = mod.jobs(tier, seed)
+    os.environ['VERIF_TIER_RUNNING'] = tier          # read by the workers (soft per-job limit)
     if only:
         jobs = [j for j in jobs if only in j.get('name', '')]
     nproc = int(os.environ.get('VERIF_PROCS', '0') or 0) or min(16, os.cpu_count() or 1, max(1, len(jobs)))
